@@ -12,31 +12,31 @@ Local Open Scope R_scope.
 Theorem C16_roundtrip_hs_tz_via_s_d :
   forall hs tz : R,
        0 < hs -> 0 < tz -> (let '(s, d) := vt_hs_tz_to_s_d RN hs tz in vt_s_d_to_hs_tz RN s d) = (hs, tz).
-Proof. exact roundtrip_hs_tz_via_s_d. Qed.
+Proof. exact (@roundtrip_hs_tz_via_s_d). Qed.
 
 (* hs_s_to_hs_tz(hs_tz_to_hs_s(hs,tz)) = (hs,tz) *)
 Theorem C16_roundtrip_hs_tz_via_hs_s :
   forall hs tz : R,
        0 < hs -> 0 < tz -> (let '(h, s) := vt_hs_tz_to_hs_s RN hs tz in vt_hs_s_to_hs_tz RN h s) = (hs, tz).
-Proof. exact roundtrip_hs_tz_via_hs_s. Qed.
+Proof. exact (@roundtrip_hs_tz_via_hs_s). Qed.
 
 (* hs_tz_to_hs_s(hs_s_to_hs_tz(hs,s)) = (hs,s) *)
 Theorem C16_roundtrip_hs_s_via_hs_tz :
   forall hs s : R,
        0 < hs -> 0 < s -> (let '(h, tz) := vt_hs_s_to_hs_tz RN hs s in vt_hs_tz_to_hs_s RN h tz) = (hs, s).
-Proof. exact roundtrip_hs_s_via_hs_tz. Qed.
+Proof. exact (@roundtrip_hs_s_via_hs_tz). Qed.
 
 (* s_tz_to_hs_tz(hs_tz_to_s_tz(hs,tz)) = (hs,tz) *)
 Theorem C16_roundtrip_hs_tz_via_s_tz :
   forall hs tz : R,
        0 < hs -> 0 < tz -> (let '(s, t) := vt_hs_tz_to_s_tz RN hs tz in vt_s_tz_to_hs_tz RN s t) = (hs, tz).
-Proof. exact roundtrip_hs_tz_via_s_tz. Qed.
+Proof. exact (@roundtrip_hs_tz_via_s_tz). Qed.
 
 (* hs_tz_to_s_tz(s_tz_to_hs_tz(s,tz)) = (s,tz).  (The sixth composition, (s,d) -> (hs,tz) -> (s,d), is validated numerically only.) *)
 Theorem C16_roundtrip_s_tz_via_hs_tz :
   forall s tz : R,
        0 < s -> 0 < tz -> (let '(h, t) := vt_s_tz_to_hs_tz RN s tz in vt_hs_tz_to_s_tz RN h t) = (s, tz).
-Proof. exact roundtrip_s_tz_via_hs_tz. Qed.
+Proof. exact (@roundtrip_s_tz_via_hs_tz). Qed.
 
 (* predefined triple: inverse(transform(x)) = x *)
 Theorem C16_triple_inverse :
@@ -45,12 +45,12 @@ Theorem C16_triple_inverse :
        0 < tz ->
        pd_get_Windmeier_EW_Hs_S_inv_transform RN (pd_get_Windmeier_EW_Hs_S_transform RN (hs, tz)) =
        (hs, tz).
-Proof. exact triple_inverse. Qed.
+Proof. exact (@triple_inverse). Qed.
 
 (* transform keeps hs, so D(transform) is triangular *)
 Theorem C16_triple_first_coordinate :
   forall hs tz : R, fst (pd_get_Windmeier_EW_Hs_S_transform RN (hs, tz)) = hs.
-Proof. exact triple_first_coordinate. Qed.
+Proof. exact (@triple_first_coordinate). Qed.
 
 (* supplied Jacobian = |det D(transform)| = |d s/d tz| (Coquelicot is_derive) *)
 Theorem C16_triple_jacobian :
@@ -61,7 +61,7 @@ Theorem C16_triple_jacobian :
          (- pd_get_Windmeier_EW_Hs_S_jacobian RN (hs, tz)) /\
        Rabs (- pd_get_Windmeier_EW_Hs_S_jacobian RN (hs, tz)) =
        pd_get_Windmeier_EW_Hs_S_jacobian RN (hs, tz).
-Proof. exact triple_jacobian. Qed.
+Proof. exact (@triple_jacobian). Qed.
 
 (* both predefined transformed models ship the same triple *)
 Theorem C16_triples_agree :
@@ -69,7 +69,7 @@ Theorem C16_triples_agree :
        pd_get_Nonzero_EW_Hs_S_transform RN x = pd_get_Windmeier_EW_Hs_S_transform RN x /\
        pd_get_Nonzero_EW_Hs_S_inv_transform RN x = pd_get_Windmeier_EW_Hs_S_inv_transform RN x /\
        pd_get_Nonzero_EW_Hs_S_jacobian RN x = pd_get_Windmeier_EW_Hs_S_jacobian RN x.
-Proof. exact triples_agree. Qed.
+Proof. exact (@triples_agree). Qed.
 
 (* TransformedModel.pdf is the change-of-variables density base_pdf(T x) |det DT x| (hand model of pdf, tied by correspondence) *)
 Theorem C16_pdf_is_pushforward :
@@ -81,7 +81,7 @@ Theorem C16_pdf_is_pushforward :
          fst (pd_get_Windmeier_EW_Hs_S_transform RN (hs, tz)) = hs /\
          tm_pdf RN base_pdf (pd_get_Windmeier_EW_Hs_S_transform RN) (pd_get_Windmeier_EW_Hs_S_jacobian RN)
            (hs, tz) = base_pdf (pd_get_Windmeier_EW_Hs_S_transform RN (hs, tz)) * Rabs dsdtz.
-Proof. exact tm_pdf_is_pushforward. Qed.
+Proof. exact (@tm_pdf_is_pushforward). Qed.
 
 (* samples are the inverse-transformed samples of the base model, one per base row, in order *)
 Theorem C16_samples_are_inverse_images :
@@ -89,7 +89,7 @@ Theorem C16_samples_are_inverse_images :
        tm_draw (pd_get_Windmeier_EW_Hs_S_inv_transform RN) bs =
        map (pd_get_Windmeier_EW_Hs_S_inv_transform RN) bs /\
        length (tm_draw (pd_get_Windmeier_EW_Hs_S_inv_transform RN) bs) = length bs.
-Proof. exact tm_draw_spec. Qed.
+Proof. exact (@tm_draw_spec). Qed.
 
 (* inverse-transforming transformed points returns them *)
 Theorem C16_samples_roundtrip :
@@ -97,12 +97,12 @@ Theorem C16_samples_roundtrip :
        List.Forall (fun x : R * R => 0 < fst x /\ 0 < snd x) bs ->
        tm_draw (pd_get_Windmeier_EW_Hs_S_inv_transform RN) (map (pd_get_Windmeier_EW_Hs_S_transform RN) bs) =
        bs.
-Proof. exact tm_draw_roundtrip. Qed.
+Proof. exact (@tm_draw_roundtrip). Qed.
 
 (* PARTIAL: only the counting skeleton of empirical_cdf; that Monte-Carlo conditional samples/cdf/quantiles follow the conditional density (no tail truncation) is probabilistic and validated with DKW bounds by the harness, not proved *)
 Theorem C16_empirical_count_partial :
   forall (sample : list (R * R)) (x : R * R), (tm_empirical_count RN sample x <= length sample)%nat.
-Proof. exact tm_empirical_count_le. Qed.
+Proof. exact (@tm_empirical_count_le). Qed.
 
 Example C16_nonvacuous : 0 < factor /\ fst (pd_get_Windmeier_EW_Hs_S_transform RN (2, 7)) = 2.
 Proof. split; [exact factor_pos|reflexivity]. Qed.
